@@ -402,17 +402,20 @@ RECURSIVE JoinPayloads(_, _)
 JoinPayloads(parts, x) == IF x > Len(parts) THEN [ok |-> TRUE, out |-> <<>>]
                           ELSE LET p == StreamPayload(parts[x]) r == JoinPayloads(parts, x + 1)
                                IN [ok |-> p.ok /\ r.ok, out |-> p.out \o <<10>> \o r.out]
-QueuePages(want) ==
+\* `extra`: further payloads the caller wants lexed as content (appearance streams, ...), seq of [kind, n, p]
+QueuePagesExtra(want, extra) ==
   /\ phase = "pages"
-  /\ queue' = IF want THEN [x \in 1..Len(PageList) |-> [kind |-> "content", n |-> x, p |-> JoinPayloads(ContentParts(PageList[x].node), 1)]] ELSE <<>>
+  /\ queue' = (IF want THEN [x \in 1..Len(PageList) |-> [kind |-> "content", n |-> x, p |-> JoinPayloads(ContentParts(PageList[x].node), 1)]] ELSE <<>>) \o extra
   /\ indexed' = TRUE /\ phase' = "next"
   /\ UNCHANGED <<lexvars, fcase, topstart, offs, lastdata, bad, srcbytes, cursub, secs, res, mem>>
+QueuePages(want) == QueuePagesExtra(want, <<>>)
 AllDone == /\ phase = "next" /\ queue = <<>> /\ indexed
            /\ phase' = "done"
            /\ UNCHANGED <<lexvars, fcase, topstart, offs, lastdata, bad, queue, srcbytes, cursub, secs, res, indexed, mem>>
 ContentOf(x) == LET S == {y \in 1..Len(subs) : subs[y].kind = "content" /\ subs[y].n = x} IN
                 IF S = {} THEN [ok |-> FALSE, items |-> <<>>] ELSE subs[CHOOSE y \in S : TRUE]
 \* every step but the queueing of object streams (which an encrypted file's reader does with its key)
-FileStepRest(wantContent) == ScanStep \/ FlushObj \/ FlushSub \/ EndBody(<<>>) \/ NextSub \/ EndSub \/ Finish1 \/ Finish2 \/ QueuePages(wantContent) \/ AllDone
+FileStepCore == ScanStep \/ FlushObj \/ FlushSub \/ EndBody(<<>>) \/ NextSub \/ EndSub \/ Finish1 \/ Finish2 \/ AllDone
+FileStepRest(wantContent) == FileStepCore \/ QueuePages(wantContent)
 FileStep(wantContent) == FileStepRest(wantContent) \/ QueueStmsD(Clear)
 =============================================================================
